@@ -1,8 +1,8 @@
 """Random scenario generator for the session machine (shared by C04–C07, C11)."""
 from sess_common import SoupCodec, ServerCodec, cut_stream, REJECT_N
 
-CB_BEHS = ['ret', ('await', 0), ('await', 1), ('await', 2), 'close', 'iclose']
-MSG_BEHS = ['ret', 'ret', ('await', 0), ('await', 1), ('await', 3), 'close', 'iclose', 'raise']
+CB_BEHS = ['ret', ('await', 0), ('await', 1), ('await', 2), 'close', 'iclose', ('sleep', 0), ('sleep', 2), ('sleep', 4)]
+MSG_BEHS = ['ret', 'ret', ('await', 0), ('await', 1), ('await', 3), 'close', 'iclose', 'raise', ('sleep', 0), ('sleep', 3)]
 
 
 def gen_cfg(rng, kind='soup-client', mode=None):
@@ -87,6 +87,10 @@ def gen_script(rng, cfg, hb=0.004, focus=None):
         if focus == 'login' and rng.random() < 0.25 and not reply and not tail:
             # the caller gives up while the reply is outstanding
             script += gap(rng, hb) + [('cancel', u)]
+        elif focus == 'login' and rng.random() < 0.3 and (reply or tail):
+            # the caller gives up in the very loop turns in which the reply is being handed over (reader -> queue -> helper task ->
+            # login()): 0..4 turns after the bytes arrived
+            script += [('turns', rng.randint(0, 4)), ('cancel', u)]
         logged_in = reply[:1] == [('msg', 0)] or reply[:2] == ['hb', ('msg', 0)]
     if logged_in and not stream_dead[0] and rng.random() < (0.25 if focus in ('close', None) else 0.05):
         # a heartbeat-timeout close with inbound data / user calls landing in the middle of it
@@ -137,3 +141,83 @@ def gen_script(rng, cfg, hb=0.004, focus=None):
     return script
 
 
+
+
+# ------------------------------------------------------------------ extended scenarios (oracle only, not replayed through the model)
+def gen_ext(rng, hb=0.004):
+    """Scenarios that use parts of the public API and callback shapes the Lean session machine does not model:
+    `pause_dispatching()` around a pull, `start_dispatching()` at any moment (also after the close), message callbacks that work for
+    some timers and then close the session themselves, message callbacks whose cancellation clean-up takes (much) longer than a
+    heartbeat interval, close callbacks that outlast several heartbeat intervals.  Returns (cfg, script, settle)."""
+    codec = SoupCodec()
+    cfg = dict(kind='soup-client', mode='callback', has_cb=rng.random() < 0.9,
+               cb_beh=rng.choice(['ret', ('await', 1), ('sleep', 1), ('sleep', 4), 'close', 'iclose']),
+               default_beh=rng.choice(['ret', 'ret', ('await', 0), ('sleep', 0)]), msg_beh={})
+    slow = 0.0
+    n_special = rng.randint(0, 2)
+    for n in rng.sample(range(1, 7), n_special):
+        c = rng.random()
+        if c < 0.4:
+            cfg['msg_beh'][n] = ('sleep_close', rng.choice([0, 0, 1, 3]))
+        elif c < 0.8:
+            d = rng.choice([0.0003, 0.002, hb * 1.5, hb * 6, 1.3] if rng.random() < 0.25 else [0.0003, 0.002, hb * 1.5, hb * 6])
+            slow = max(slow, d)
+            cfg['msg_beh'][n] = ('cleanup', d)
+        else:
+            cfg['msg_beh'][n] = rng.choice(['close', 'iclose', 'raise', ('sleep', 3)])
+    script = [('connect',), ('login', 2)]
+    next_msg = [1]
+
+    def data(k, special=None):
+        toks = []
+        for _ in range(k):
+            toks.append(('msg', next_msg[0]))
+            next_msg[0] += 1
+        if special:
+            toks.append(special)
+        return cut_stream(toks, codec, rng, rng.choice(['whole', 'whole', 'per-frame', 'random']))
+    script += cut_stream([('msg', 0)], codec, rng, 'whole')
+    script += gap(rng, hb)
+    users = [10]
+
+    def new_user():
+        users[0] += 1
+        return users[0]
+    dead = False
+    # one flavour per scenario: start_dispatching() while another consumer has the dispatcher paused would be two consumers at once
+    # (API misuse, outside every property's quantifier)
+    flavour = rng.choice(['pause', 'startdisp', 'plain'])
+    paused = [False]
+    for _ in range(rng.randint(2, 6)):
+        c = rng.random()
+        if c < 0.35 and not dead:
+            script += data(rng.randint(1, 4))
+        elif c < 0.5 and flavour == 'pause' and not paused[0]:
+            paused[0] = True          # one paused pull per scenario (two concurrent pulls are API misuse)
+            script.append(('paused_recv', new_user()))
+        elif c < 0.6 and flavour == 'startdisp':
+            script.append(('startdisp',))
+        elif c < 0.65:
+            script.append(('send',))
+        else:
+            k = rng.random()
+            if k < 0.25:
+                script.append(('close', new_user()))
+            elif k < 0.4:
+                script.append(('iclose',))
+            elif k < 0.5:
+                script.append(('logout',))
+            elif k < 0.7:
+                script.append(('eof',))
+                dead = True
+            elif k < 0.85 and not dead:
+                script += data(rng.randint(0, 2), 'logout')
+                dead = True
+            else:
+                script.append(('advance', hb * 2.6))
+        script += gap(rng, hb)
+    if rng.random() < 0.5 and flavour == 'startdisp':
+        script.append(('startdisp',))
+    if rng.random() < 0.3:
+        script.append(('close', new_user()))
+    return cfg, script, 0.05 + slow * 1.2
